@@ -217,7 +217,9 @@ func printDiff(a, b string, options []jd.Option) {
 	if *output == "" {
 		fmt.Print(str)
 	} else {
-		ioutil.WriteFile(*output, []byte(str), 0644)
+		if err := ioutil.WriteFile(*output, []byte(str), 0644); err != nil {
+			errorAndExit(err)
+		}
 	}
 	if haveDiff {
 		os.Exit(1)
@@ -328,7 +330,9 @@ func printPatch(p, a string, options []jd.Option) {
 	if *output == "" {
 		fmt.Print(out)
 	} else {
-		os.WriteFile(*output, []byte(out), 0644)
+		if err := os.WriteFile(*output, []byte(out), 0644); err != nil {
+			errorAndExit(err)
+		}
 	}
 	os.Exit(0)
 }
@@ -384,7 +388,9 @@ func printTranslation(a string) {
 	if *output == "" {
 		fmt.Print(out)
 	} else {
-		ioutil.WriteFile(*output, []byte(out), 0644)
+		if err := ioutil.WriteFile(*output, []byte(out), 0644); err != nil {
+			errorAndExit(err)
+		}
 	}
 	os.Exit(0)
 }
